@@ -190,7 +190,6 @@ Fixpoint file_table (obs : list fobs) (dsd : Z) : res (list cseg * Z) :=
   | FSeg o :: rest =>
     let '(sg, dsd') := read_mp4 dsd o 0 in
     match file_table rest dsd' with Ok (l, d) => Ok (sg :: l, d) | Err e => Err e | Panic s => Panic s end
-  | FNoFrag :: _ => Panic "readMP4Segment: index out of range [0] with length 0"
   | _ :: _ => Err "readMP4Segment"
   end.
 
@@ -336,23 +335,52 @@ Definition admission_range (ref : repdata) : Prop :=
 Lemma dur_ms_ok r v : dur_ms r = Ok v -> r_mediats r <> 0 /\ v = Z.quot (mul64 1000 (rduration (r_segs r))) (r_mediats r).
 Proof. unfold dur_ms, go_div. destruct (r_mediats r =? 0) eqn:E; [discriminate|]. intros H; inversion H. split; [lia|reflexivity]. Qed.
 
-Lemma all_same_dur_true refct loopMS : forall l,
-  all_same_dur refct loopMS l = Ok true ->
-  forall k r, In (k, r) l -> (r_ctype r = refct \/ r_preenc r = true) -> dur_ms r = Ok loopMS.
+(** [table_contig_b] decides contiguity of the served table. *)
+Lemma table_contig_b_spec l : table_contig_b l = true <-> ccontig l.
 Proof.
-  induction l as [|[k0 r0] l IH]; intros H k r Hin Hc; [destruct Hin|].
-  cbn [all_same_dur] in H.
-  destruct (negb (String.eqb (r_ctype r0) refct) && negb (r_preenc r0)) eqn:E.
-  - destruct Hin as [Heq|Hin]; [|eapply IH; eauto].
-    inversion Heq; subst. exfalso. apply andb_prop in E. destruct E as [E1 E2].
-    destruct Hc as [Hc|Hc].
-    + rewrite Hc, String.eqb_refl in E1. discriminate.
-    + rewrite Hc in E2. discriminate.
-  - destruct (dur_ms r0) as [d| |] eqn:Ed; cbn [bind] in H; try discriminate.
-    destruct (all_same_dur refct loopMS l) as [b| |] eqn:Er; cbn [bind] in H; try discriminate.
-    inversion H as [Hb]. apply andb_prop in Hb. destruct Hb as [Hd Hb]. subst b.
-    destruct Hin as [Heq|Hin]; [|eapply IH; eauto].
-    inversion Heq; subst. rewrite Ed. f_equal. lia.
+  unfold ccontig. induction l as [|a l IH]; [cbn; tauto|]. destruct l as [|b l'].
+  - cbn. tauto.
+  - change (table_contig_b (a :: b :: l')) with ((c_st b =? c_en a) && table_contig_b (b :: l')).
+    change (contiguous (map tseg (a :: b :: l'))) with (c_en a = c_st b /\ contiguous (map tseg (b :: l'))).
+    rewrite Bool.andb_true_iff, IH. split; intros [H1 H2]; split; auto; lia.
+Qed.
+
+(** What the loop of consolidateAsset guarantees for every representation when it lets the asset
+    through: a contiguous table and, unless the representation has no timescale, the duration rule. *)
+Definition rep_admitted (ref : repdata) (loopMS : Z) (r : repdata) : Prop :=
+  ccontig (r_segs r) /\
+  (r_mediats r <> 0 ->
+   (exists d, dur_ms r = Ok d /\
+      (r_ctype r = "audio" /\ r_ctype ref <> "audio" -> r_preenc r = true -> d = loopMS)) /\
+   (~ (r_ctype r = "audio" /\ r_ctype ref <> "audio") ->
+      mul64 (rduration (r_segs r)) (r_mediats ref) = mul64 (rduration (r_segs ref)) (r_mediats r))).
+
+Lemma check_reps_true ref loopMS : forall l,
+  check_reps ref loopMS l = Ok (Some true) ->
+  forall k r, In (k, r) l -> rep_admitted ref loopMS r.
+Proof.
+  induction l as [|[k0 r0] l IH]; intros H k r Hin; [destruct Hin|].
+  cbn [check_reps] in H.
+  destruct (table_contig_b (r_segs r0)) eqn:Ec; cbn [negb] in H; [|discriminate].
+  destruct (r_mediats r0 =? 0) eqn:Ez.
+  { destruct Hin as [Heq|Hin]; [|eapply IH; eauto].
+    inversion Heq; subst. split; [apply table_contig_b_spec; exact Ec|]. intros Hne. lia. }
+  destruct (dur_ms r0) as [d| |] eqn:Ed; cbn [bind] in H; try discriminate.
+  destruct (check_reps ref loopMS l) as [[b|]| |] eqn:Er; cbn [bind] in H; try discriminate.
+  inversion H as [Hb]. apply andb_prop in Hb. destruct Hb as [Hthis Hb]. subst b.
+  destruct Hin as [Heq|Hin]; [|eapply IH; eauto].
+  inversion Heq; subst. split; [apply table_contig_b_spec; exact Ec|]. intros _.
+  destruct (String.eqb (r_ctype r) "audio" && negb (String.eqb (r_ctype ref) "audio")) eqn:Ea.
+  - apply andb_prop in Ea. destruct Ea as [Ea1 Ea2]. apply String.eqb_eq in Ea1.
+    assert (Hra : r_ctype ref <> "audio") by (intros Hx; rewrite Hx, String.eqb_refl in Ea2; discriminate).
+    split.
+    + exists d. split; [exact Ed|]. intros _ Hp. rewrite Hp in Hthis. cbn in Hthis. lia.
+    + intros Hn. exfalso. apply Hn. split; assumption.
+  - split.
+    + exists d. split; [exact Ed|]. intros [Hx Hy]. exfalso.
+      rewrite Hx, String.eqb_refl in Ea. cbn in Ea.
+      destruct (String.eqb (r_ctype ref) "audio") eqn:E2; [apply String.eqb_eq in E2; contradiction|discriminate].
+    + intros _. lia.
 Qed.
 
 (** Admission: what consolidateAsset guarantees about every asset it lets through. *)
@@ -362,17 +390,17 @@ Lemma consolidate_admitted a a' :
     a_ref a' = Some k /\ lookup k (a_reps a) = Some ref /\ a_reps a' = a_reps a /\
     dur_ms ref = Ok (a_loop a') /\
     mul64 (a_loop a') (r_mediats ref) = mul64 1000 (rduration (r_segs ref)) /\
-    (forall k' r, In (k', r) (a_reps a) -> (r_ctype r = r_ctype ref \/ r_preenc r = true) -> dur_ms r = Ok (a_loop a')).
+    (forall k' r, In (k', r) (a_reps a) -> rep_admitted ref (a_loop a') r).
 Proof.
   unfold consolidate. intros H.
   destruct (reference_rep a) as [k|] eqn:Ek; [|discriminate].
   destruct (lookup k (a_reps a)) as [ref|] eqn:El; [|discriminate].
   destruct (dur_ms ref) as [loopMS| |] eqn:Ed; cbn [bind] in H; try discriminate.
   destruct (mul64 loopMS (r_mediats ref) =? mul64 1000 (rduration (r_segs ref))) eqn:Em; cbn [negb] in H; [|discriminate].
-  destruct (all_same_dur (r_ctype ref) loopMS (a_reps a)) as [b| |] eqn:Es; cbn [bind] in H; try discriminate.
+  destruct (check_reps ref loopMS (a_reps a)) as [[b|]| |] eqn:Es; cbn [bind] in H; try discriminate.
   destruct b; [|discriminate]. inversion H; subst a'; cbn.
-  exists k, ref. repeat split; auto; try lia.
-  intros k' r Hin Hc. eapply all_same_dur_true; eauto.
+  exists k, ref. split; [reflexivity|]. split; [exact El|]. split; [reflexivity|]. split; [exact Ed|].
+  split; [lia|]. intros k' r Hin. eapply check_reps_true; eauto.
 Qed.
 
 (** In exact arithmetic (no int64 overflow): the loop is a whole number of milliseconds. *)
